@@ -103,17 +103,45 @@ type addr string
 func (a addr) Network() string { return "tcp" }
 func (a addr) String() string  { return string(a) }
 
+// half is one direction of a connection.  Every segment, the FIN and a reset carry the virtual
+// instant at which they become visible to the reader.  For writers under the scheduler that is
+// "now".  Writers the scheduler does not control (net/http, crypto/tls, byte-scripted servers)
+// are serialised by the virtual clock instead: each of their segments becomes visible 1 ns after
+// the previous one and never at the instant it was written, so what a Read returns depends only
+// on virtual time, never on how the Go scheduler interleaves a racing writer and reader.
 type half struct {
-	mu     sync.Mutex
-	buf    []byte
-	gone   bool // the reader closed: further writes are accepted and discarded (first write after a FIN succeeds)
-	eof    bool // writer closed its side
-	reset  bool
-	notify chan struct{}
-	cap    int
+	mu      sync.Mutex
+	segs    []segment
+	size    int
+	lastAt  time.Time
+	gone    bool // the reader closed: further writes are accepted and discarded (first write after a FIN succeeds)
+	eof     bool // writer closed its side
+	eofAt   time.Time
+	reset   bool
+	resetAt time.Time
+	notify  chan struct{}
+	cap     int
+}
+
+type segment struct {
+	data []byte
+	at   time.Time
 }
 
 func newHalf(cap int) *half { return &half{notify: make(chan struct{}, 1), cap: cap} }
+
+// stamp returns the instant at which something written now becomes visible (h.mu held).
+func (h *half) stamp() time.Time {
+	at := time.Now()
+	if at.Before(h.lastAt) {
+		at = h.lastAt
+	}
+	if !simrt.IsScheduled() {
+		at = at.Add(time.Nanosecond)
+	}
+	h.lastAt = at
+	return at
+}
 
 func (h *half) kick() {
 	select {
@@ -172,22 +200,49 @@ func (c *TCPConn) Read(p []byte) (int, error) {
 		}
 		h := c.rd
 		h.mu.Lock()
-		if h.reset {
+		now := time.Now()
+		if h.reset && !now.Before(h.resetAt) {
 			h.mu.Unlock()
 			return 0, opErr("read", c, os.NewSyscallError("read", syscall.ECONNRESET))
 		}
-		if len(h.buf) > 0 {
-			n := copy(p, h.buf)
-			h.buf = h.buf[n:]
+		if len(h.segs) > 0 && !now.Before(h.segs[0].at) {
+			n := 0
+			for n < len(p) && len(h.segs) > 0 && !now.Before(h.segs[0].at) {
+				k := copy(p[n:], h.segs[0].data)
+				n += k
+				h.size -= k
+				if k == len(h.segs[0].data) {
+					h.segs = h.segs[1:]
+				} else {
+					h.segs[0].data = h.segs[0].data[k:]
+				}
+			}
 			h.mu.Unlock()
 			h.kick() // wake a blocked writer
 			return n, nil
 		}
-		if h.eof {
+		if len(h.segs) == 0 && h.eof && !now.Before(h.eofAt) {
 			h.mu.Unlock()
 			return 0, io.EOF
 		}
+		// something is on its way: wake up when it becomes visible
+		var next time.Time
+		switch {
+		case len(h.segs) > 0:
+			next = h.segs[0].at
+		case h.eof:
+			next = h.eofAt
+		}
+		if h.reset && (next.IsZero() || h.resetAt.Before(next)) {
+			next = h.resetAt
+		}
 		h.mu.Unlock()
+		var arrive <-chan time.Time
+		var arriveTm *time.Timer
+		if !next.IsZero() {
+			arriveTm = time.NewTimer(next.Sub(now))
+			arrive = arriveTm.C
+		}
 		var timer <-chan time.Time
 		var tm *time.Timer
 		if !dl.IsZero() {
@@ -200,8 +255,12 @@ func (c *TCPConn) Read(p []byte) (int, error) {
 		}
 		select {
 		case <-h.notify:
+		case <-arrive:
 		case <-timer:
 		case <-c.closedCh:
+		}
+		if arriveTm != nil {
+			arriveTm.Stop()
 		}
 		if tm != nil {
 			tm.Stop()
@@ -223,7 +282,7 @@ func (c *TCPConn) Write(p []byte) (int, error) {
 		}
 		h := c.wr
 		h.mu.Lock()
-		if h.reset || c.rd.isReset() {
+		if (h.reset && !time.Now().Before(h.resetAt)) || c.rd.isReset() {
 			h.mu.Unlock()
 			return total, opErr("write", c, os.NewSyscallError("write", syscall.ECONNRESET))
 		}
@@ -231,13 +290,14 @@ func (c *TCPConn) Write(p []byte) (int, error) {
 			h.mu.Unlock()
 			return total + len(p), nil
 		}
-		room := h.cap - len(h.buf)
+		room := h.cap - h.size
 		if room > 0 {
 			n := len(p)
 			if n > room {
 				n = room
 			}
-			h.buf = append(h.buf, p[:n]...)
+			h.segs = append(h.segs, segment{data: append([]byte{}, p[:n]...), at: h.stamp()})
+			h.size += n
 			p = p[n:]
 			total += n
 			h.mu.Unlock()
@@ -270,7 +330,7 @@ func (c *TCPConn) Write(p []byte) (int, error) {
 func (h *half) isReset() bool {
 	h.mu.Lock()
 	defer h.mu.Unlock()
-	return h.reset
+	return h.reset && !time.Now().Before(h.resetAt)
 }
 
 // Close closes the connection: the peer reads EOF after draining.
@@ -284,7 +344,10 @@ func (c *TCPConn) Close() error {
 	close(c.closedCh)
 	c.mu.Unlock()
 	c.wr.mu.Lock()
-	c.wr.eof = true
+	if !c.wr.eof {
+		c.wr.eof = true
+		c.wr.eofAt = c.wr.stamp()
+	}
 	c.wr.mu.Unlock()
 	c.wr.kick()
 	// the peer's later writes go nowhere
@@ -298,7 +361,10 @@ func (c *TCPConn) Close() error {
 // Reset aborts the connection: the peer's reads and writes fail with ECONNRESET.
 func (c *TCPConn) Reset() {
 	c.wr.mu.Lock()
-	c.wr.reset = true
+	if !c.wr.reset {
+		c.wr.reset = true
+		c.wr.resetAt = c.wr.stamp()
+	}
 	c.wr.mu.Unlock()
 	c.wr.kick()
 	c.mu.Lock()
@@ -320,12 +386,15 @@ func (c *TCPConn) IsClosed() bool {
 func (c *TCPConn) PeerClosed() bool {
 	c.rd.mu.Lock()
 	defer c.rd.mu.Unlock()
-	return c.rd.eof
+	return c.rd.eof && !time.Now().Before(c.rd.eofAt)
 }
 
 func (c *TCPConn) CloseWrite() error {
 	c.wr.mu.Lock()
-	c.wr.eof = true
+	if !c.wr.eof {
+		c.wr.eof = true
+		c.wr.eofAt = c.wr.stamp()
+	}
 	c.wr.mu.Unlock()
 	c.wr.kick()
 	return nil
